@@ -11,6 +11,7 @@ The abstract system is not an interpreter model: that every concrete opcode case
 tied to the Go source by layer 1, and the arithmetic is tied to the running code by the correspondence legs.
 -/
 import RegexVerif.Lemmas.Capacity
+import RegexVerif.Lemmas.VMCapacity
 
 namespace RegexVerif.Props.C13
 open RegexVerif RegexVerif.Capacity RegexVerif.Lemmas.Capacity RegexVerif.Generated
@@ -251,5 +252,104 @@ example :
     run (ensOf 100 4) ⟨⟨0, 0⟩, 64⟩ ms = some ⟨⟨5, 65⟩, 100⟩ ∧
     run (ensOf (-1) 4) ⟨⟨0, 0⟩, 64⟩ ms = some ⟨⟨5, 65⟩, 128⟩ ∧
     run (ensOf 60 4) ⟨⟨0, 0⟩, 60⟩ ms = none := by decide
+
+/-! ------------------------------------------------------------------------------------------------
+### 4. VM slice: the interpreter model refines the abstract capacity system
+
+`RegexVerif.VM.step` (Model/VM.lean; tied to `executeDefault` iteration by iteration by leg W) is an
+interpreter: which move comes next is computed, not given.  The theorems of this section close the gap named
+in sections 1–2: every iteration is a legal move, so the invariant `used + Φ(pc) ≤ cap` holds along every run.
+------------------------------------------------------------------------------------------------ -/
+
+section VMRefinement
+open RegexVerif.VM RegexVerif.Lemmas.VM RegexVerif.Lemmas.VMCapacity
+
+/-- states of the interpreter together with the capacity of its backtracking stack: reachable from `(s0, cap0)`
+    when every iteration that passes through `ensureStorage` (as reported by `VM.step`) replaces the capacity
+    by the result of the check `ens cap used` (`none` — ErrBacktrackingStackLimit — ends the run) -/
+inductive VMReach (ens : Nat → Nat → Option Nat) (p : Code.Prog) (env : Env) (s0 : VMState) (cap0 : Nat) :
+    VMState → Nat → Prop
+  | start : VMReach ens p env s0 cap0 s0 cap0
+  | next {s s' : VMState} {cap cap' : Nat} {chk : Bool} :
+      VMReach ens p env s0 cap0 s cap → VM.step p env s = .next s' chk →
+      (if chk then ens cap s'.track.length = some cap' else cap' = cap) → VMReach ens p env s0 cap0 s' cap'
+
+/-- **Refinement (C13 for the interpreter model).**  For a well-formed program, from a state satisfying the frame
+    invariant, every iteration of the interpreter that continues is a legal move of the abstract capacity system
+    over the weights `wsOf p` (per code position: the weight of the opcode in the table computed from the per-case
+    fingerprints regenerated from runner.go): it pushes at most that weight, it pops at most what is there, its
+    target and new depth are the move's, and it passes through `ensureStorage` exactly when the move does —
+    `goTo` when the target is ≤ the position, `backtrack` when it is <. -/
+theorem vm_step_is_move (p : Code.Prog) (env : Env) (s s' : VMState) (chk : Bool) (bs : List Nat)
+    (hwf : WF p bs) (hinv : Inv p bs env s) (h : VM.step p env s = .next s' chk) :
+    ∃ m : Move, legal (wsOf p) ⟨s.codepos, s.track.length⟩ m ∧
+      lstep ⟨s.codepos, s.track.length⟩ m = ⟨s'.codepos, s'.track.length⟩ ∧
+      checks ⟨s.codepos, s.track.length⟩ m = chk :=
+  step_refines hwf hinv h
+
+/-- **The interpreter never writes below index 0 of the backtracking stack.**  Any program with `wf` whose
+    potential `Φ(0) = Σ weight` is covered by what a successful check leaves free (`need`), any check meeting
+    `EnsSpec need`, any text and start position: start as `executeDefault` does (a check with nothing used), run
+    any number of iterations; in every reachable state the slots in use fit in the capacity, and so do the slots
+    in use after the next iteration's pushes, before its own check — `Runtrackpos = cap − used ≥ 0` at every
+    store. -/
+theorem vm_track_no_overflow (p : Code.Prog) (env : Env) (need : Nat) (ens : Nat → Nat → Option Nat)
+    (hens : EnsSpec need ens) (hpot : phi (wsOf p) 0 ≤ need) (hwf : p.wf = true)
+    (pos : Int) (h0 : 0 ≤ pos) (hn : pos ≤ env.len) (s0 : VMState) (hinit : VM.init p pos = .ok s0)
+    (capA cap0 : Nat) (hstart : ens capA 0 = some cap0)
+    (s : VMState) (cap : Nat) (hr : VMReach ens p env s0 cap0 s cap) :
+    s.track.length ≤ cap ∧ ∀ s' chk, VM.step p env s = .next s' chk → s'.track.length ≤ cap := by
+  obtain ⟨bs, hWF⟩ := wf_spec hwf
+  obtain ⟨s0', hi', hinv0, hc0, ht0⟩ := init_inv (env := env) hWF pos h0 hn
+  rw [hinit] at hi'
+  cases hi'
+  have key : ∃ bs, WF p bs ∧ Inv p bs env s ∧ TrackInv (wsOf p) ⟨⟨s.codepos, s.track.length⟩, cap⟩ := by
+    induction hr with
+    | start =>
+      refine ⟨bs, hWF, hinv0, ?_⟩
+      have hst : start ens capA = some ⟨⟨0, 0⟩, cap0⟩ := by simp [start, hstart]
+      have := (start_inv (ws := wsOf p) hens hpot hst).1
+      rw [hc0, ht0]
+      exact this
+    | @next s1 s2 c1 c2 chk hprev hstep hcap ih =>
+      obtain ⟨bs', hW', hI', hT⟩ := ih
+      have hI2 := step_ok hW' hI'
+      rw [hstep] at hI2
+      obtain ⟨m, hl, hls, hck⟩ := step_refines hW' hI' hstep
+      refine ⟨bs', hW', hI2, ?_⟩
+      refine step_inv (m := m) hens hpot hT hl ?_
+      unfold Capacity.step
+      simp only [hls, hck]
+      cases chk with
+      | true => simp only [ite_true] at hcap ⊢; simp [hcap]
+      | false => simp only [Bool.false_eq_true, ite_false] at hcap ⊢; rw [hcap]
+  obtain ⟨bs', hW', hI', hT⟩ := key
+  refine ⟨by unfold TrackInv at hT; simp only at hT; omega, ?_⟩
+  intro s' chk hstep
+  obtain ⟨m, hl, hls, _⟩ := step_refines hW' hI' hstep
+  have := peak_le hT hl
+  unfold peak at this
+  simp only [hls] at this
+  exact this
+
+/-- The same with the real check and the real sizing: `ens = ensOf L TrackCount` (the loop of `ensureStorage` around
+    `growTrack` under the limit `L`, negative = none), `need = 4·TrackCount`; the hypothesis on the potential is the
+    decidable `potOk p`, which leg W evaluates on every compiled program (main and bool-only) — it follows from the
+    Nullmark/Goto pairing that leg P checks (`potential_le_need`). -/
+theorem vm_track_no_overflow_program (p : Code.Prog) (env : Env) (L : Int) (hwf : p.wf = true)
+    (hpot : potOk p = true) (pos : Int) (h0 : 0 ≤ pos) (hn : pos ≤ env.len) (s0 : VMState)
+    (hinit : VM.init p pos = .ok s0) (capA cap0 : Nat) (hstart : ensOf L p.trackcount capA 0 = some cap0)
+    (s : VMState) (cap : Nat) (hr : VMReach (ensOf L p.trackcount) p env s0 cap0 s cap) :
+    s.track.length ≤ cap ∧ ∀ s' chk, VM.step p env s = .next s' chk → s'.track.length ≤ cap :=
+  vm_track_no_overflow p env (p.trackcount * 4) (ensOf L p.trackcount) (ensure_is_check L p.trackcount)
+    (by unfold potOk at hpot; simp only [decide_eq_true_eq] at hpot; omega) hwf pos h0 hn s0 hinit capA cap0
+    hstart s cap hr
+
+/-- non-vacuity: the compiled program of `(?:ab?)*c` (TrackCount 5): well-formed, potential 2+1+1+3+2 = 9 ≤ 20,
+    and the first check of an attempt succeeds from the initial allocation of 64 slots -/
+example : demo.wf = true ∧ potOk demo = true ∧ phi (wsOf demo) 0 = 9 ∧
+    ensOf (-1) 5 (alloc0 (-1) 5) 0 = some 64 := by decide
+
+end VMRefinement
 
 end RegexVerif.Props.C13
